@@ -287,6 +287,7 @@ def c01_seed_env(k, n):
 
 
 register("C01", title="replica determinism", engine="irc-history-engine",
+         rule_more="an entry on which the instances panic must panic on every instance at the same place; services lines without prefix are appended and compared after everything else",
          pkg="./internal/ircserver",
          parts=[{"test": "^TestVerifC01$", "children": {"quick": 16, "thorough": 16}, "cases": {"quick": 60, "thorough": 1500},
                  "child_env": c01_seed_env}],
@@ -301,6 +302,7 @@ register("C01", title="replica determinism", engine="irc-history-engine",
          technique="differential replay of generated histories on K instances and 2 processes",
          level_text="divergence between executions of the same history is observed directly; a dependence on map order over n>=2 elements shows with probability >= 1-2^-(K-1) per occurrence")
 register("C15", title="one well-formed line", engine="irc-history-engine",
+         rule_more="every other HTTP child runs the node in JSON store mode (-pre1.0_protobuf=false); user names of several hundred bytes (generator tail)",
          parts=[{"pkg": "./internal/ircserver", "test": "^TestVerifIRC$", "children": {"quick": 12, "thorough": 16}, "cases": {"quick": 250, "thorough": 5000}},
                 {"pkg": ".", "test": "^TestVerifC15HTTP$", "children": {"quick": 4, "thorough": 16}, "cases": {"quick": 2, "thorough": 12}},
                 dict(MAIN_ENGINE)],
@@ -320,7 +322,7 @@ register("C03", title="serialization is complete", engine="irc-history-engine", 
          floor={"quick": 2000, "thorough": 50000},
          technique="differential: instance vs. Unmarshal(Marshal(instance)), structure walk + behavioural continuation")
 register("C17", title="session lifecycle", engine="irc-history-engine", pkg="./internal/ircserver",
-         rule_more='sweep on a state reloaded from a snapshot, PING-only sessions; end-without-reason and pseudo-client-QUIT monitors; TestVerifC17Leader: lookups on a leader that has applied only a prefix of its log',
+         rule_more='sweep on a state reloaded from a snapshot, PING-only sessions; end-without-reason and pseudo-client-QUIT monitors; TestVerifC17Leader: lookups on a leader that has applied only a prefix of its log; a configuration without SessionExpiration means the 10 minute default; no nickname at all is filed under an ended session',
          parts=[{"test": "^TestVerifC17$", "children": {"quick": 8, "thorough": 16}, "cases": {"quick": 30, "thorough": 400}},
                 {"test": "^TestVerifC17Concurrent$", "children": {"quick": 2, "thorough": 8}, "cases": {"quick": 30000, "thorough": 400000}},
                 {"test": "^TestVerifIRC$", "children": {"quick": 8, "thorough": 16}, "cases": {"quick": 150, "thorough": 3000}},
@@ -391,7 +393,7 @@ register("C08", title="output stream next-message lookup", pkg="./internal/outpu
 
 
 register("C09", title="LevelDB store honours LogStore / StableStore", pkg="./internal/raftstore",
-         rule_more='logs of 150-450 entries with single long DeleteRange calls; 8 readers and 1 writer on one store under the race detector, every entry read is compared',
+         rule_more='logs of 150-450 entries with single long DeleteRange calls; 8 readers and 1 writer on one store under the race detector, every entry read is compared; opening a store is watched: not returning within 60 s is a violation',
          parts=[{"test": "^TestVerifC09$", "children": {"quick": 16, "thorough": 16}, "cases": {"quick": 40, "thorough": 2500}},
                 {"test": "^TestVerifC09Concurrent$", "name": "raftstore_race", "race": True, "may_die": True, "children": {"quick": 2, "thorough": 8}, "cases": {"quick": 4, "thorough": 30}}],
          post_run=race_post_run("raftstore", "data race inside the log store while raft's readers and its writer use it concurrently (a reader can be handed another entry's fields)"),
@@ -443,7 +445,7 @@ register("C19", title="time safeguard", pkg="./internal/timesafeguard", post_run
                     "clocks, delaying handlers and unreachable peers, with the one-sided oracle only; that main() calls the safeguard before raft starts is "
                     "exercised (not asserted) by the real-binary scenarios of C05, which run with the safeguard enabled")
 register("C18", title="codecs round-trip",
-         rule_more='concurrent GetLog readers under the race detector',
+         rule_more='concurrent GetLog readers under the race detector; a snapshot whose state entry has 2-7 MB (thousands of sessions) written and restored',
          parts=[{"pkg": "./internal/raftstore", "test": "^TestVerifC18$", "children": {"quick": 8, "thorough": 16}, "cases": {"quick": 15000, "thorough": 300000}},
                 {"pkg": "./internal/outputstream", "test": "^TestVerifC18Batch$", "children": {"quick": 4, "thorough": 8}, "cases": {"quick": 10000, "thorough": 300000}},
                 {"pkg": ".", "test": "^TestVerifC18Readers$", "children": {"quick": 4, "thorough": 16}, "cases": {"quick": 6, "thorough": 60}},
@@ -462,7 +464,7 @@ register("C18", title="codecs round-trip",
 
 
 register("C02", title="compaction / snapshot / restore are invisible", pkg=".",
-         rule_more='JSON-first nodes upgraded at their first restart; compaction horizons at clock steps back',
+         rule_more='JSON-first nodes upgraded at their first restart; compaction horizons at clock steps back; the raft log is ahead of the state machine at snapshots; single failing Write calls (half of them transient), Persist must not report success after one; histories ending without a configured expiration, compacted by the running node',
          parts=[{"test": "^TestVerifC02$", "children": {"quick": 16, "thorough": 16}, "cases": {"quick": 10, "thorough": 190}}],
          timeout={"quick": 400, "thorough": 2400}, level="exploration",
          rule="seeded histories (5-120 entries, index gaps as raft-internal entries leave them) applied through the real FSM with real LevelDB stores and a real "
@@ -476,7 +478,7 @@ register("C02", title="compaction / snapshot / restore are invisible", pkg=".",
 
 
 register("C10", title="retried POST is not applied twice", pkg=".",
-         rule_more="engine monitor: after every client line / message-of-death entry of a live session its marker equals the entry's client message id (histories with clock steps back, both engine layers); a services link retries too; a third of the runs start as a JSON-mode node that is upgraded before the retries; TestVerifC10Follower: a 2-3 node raft in one process with state machines that can be held back, retry on a follower while the leader or another follower lags",
+         rule_more="engine monitor: after every client line / message-of-death entry of a live session its marker equals the entry's client message id (histories with clock steps back, both engine layers); a services link retries too; a third of the runs start as a JSON-mode node that is upgraded before the retries; TestVerifC10Follower: a 2-3 node raft in one process with state machines that can be held back, retry on a follower while the leader or another follower lags; a message with client message id 0 after numbered ones, retried",
          env={"ROBUSTIRC_TESTING_ENABLE_PANIC_COMMAND": "1"},
          parts=[{"test": "^TestVerifC10$", "children": {"quick": 8, "thorough": 16}, "cases": {"quick": 40, "thorough": 6000}},
                 {"pkg": "./internal/ircserver", "test": "^TestVerifIRC$", "children": {"quick": 6, "thorough": 16}, "cases": {"quick": 150, "thorough": 3000}},
@@ -507,7 +509,7 @@ register("C16", title="configuration updates", pkg=".",
          floor={"quick": 150, "thorough": 2000},
          technique="reference-model oracle over the HTTP API of an in-process node")
 register("C11", title="credentials", pkg=".",
-         rule_more="a session deleted before it registered; bodies naming another session / type / id / address; requests pending while the session with that (predictable) id is created; state replaced in place before the matrix (even seeds); the owner's long-poll stays open during the whole matrix; cluster -auth: every non-public path incl. /debug/* on three real binaries",
+         rule_more="a session deleted before it registered; bodies naming another session / type / id / address; requests pending while the session with that (predictable) id is created; state replaced in place before the matrix (even seeds); the owner's long-poll stays open during the whole matrix; cluster -auth: every non-public path incl. /debug/* on three real binaries; no refusal may contain 32 bytes of any session secret",
          parts=[{"test": "^TestVerifC11$", "children": {"quick": 2, "thorough": 16}, "cases": {"quick": 1, "thorough": 6}},
                 {"cluster": True, "cluster_args": ["-auth"], "children": {"quick": 1, "thorough": 2}, "cases": {"quick": 1, "thorough": 1},
                  "race": {"quick": False, "thorough": False}, "timeout": {"quick": 600, "thorough": 900}}],
@@ -711,7 +713,7 @@ register("C20", title="no data races", pkg=".", race=True,
 
 
 register("C04", title="exactly-once, in-order resume", pkg="./internal/api",
-         rule_more="output stream replaced under an open request; session ended (DELETE/KILL/QUIT) while the caught-up client's request is open; administrative /kill of several sessions with an observer resuming after every message",
+         rule_more="output stream replaced under an open request; session ended (DELETE/KILL/QUIT) while the caught-up client's request is open; administrative /kill of several sessions with an observer resuming after every message; compaction (oldest first, up to everything) while a request waits, client up to date or ahead; a response that stays open without delivering after a replaced stream is a violation",
          parts=[{"test": "^TestVerifC04$", "children": {"quick": 16, "thorough": 16}, "cases": {"quick": 8, "thorough": 190}},
                 {"pkg": ".", "test": "^TestVerifC04Admin$", "children": {"quick": 2, "thorough": 8}, "cases": {"quick": 3, "thorough": 30}}],
          timeout={"quick": 400, "thorough": 3000}, level="exploration",
